@@ -198,6 +198,13 @@ class Program:
                             ci.fields[s.target.id] = s.annotation
                     self.classes[qn] = ci
                     self._index_body(m, node.body, qn, ci, None)
+                    # `__rand__ = __and__` in the class body: a second name for the same method
+                    for s in node.body:
+                        if isinstance(s, ast.Assign) and isinstance(s.value, ast.Name) and s.value.id in ci.methods:
+                            for t in s.targets:
+                                if isinstance(t, ast.Name) and t.id not in ci.methods:
+                                    ci.methods[t.id] = ci.methods[s.value.id]
+                                    self.functions.setdefault(f"{qn}.{t.id}", ci.methods[s.value.id])
 
     @staticmethod
     def _defs_in_stmt(st: ast.stmt) -> Iterator[ast.AST]:
